@@ -429,18 +429,36 @@ func checkC16(p *Program, r *Reporter) {
 	} else {
 		// every assignment to the entries variable used for $Time$ is judged on its own
 		recv := lastTimeCall.Call.Args[0]
-		var stores []*ssa.Store
-		if ld, ok := recv.(*ssa.UnOp); ok && ld.Op == token.MUL {
-			if al, ok := ld.X.(*ssa.Alloc); ok && al.Referrers() != nil {
+		type assignment struct {
+			val ssa.Value
+			at  *ssa.BasicBlock
+			pos string
+		}
+		var stores []assignment
+		switch x := recv.(type) {
+		case *ssa.UnOp:
+			if al, ok := x.X.(*ssa.Alloc); ok && x.Op == token.MUL && al.Referrers() != nil {
 				for _, ref := range *al.Referrers() {
 					if st, ok := ref.(*ssa.Store); ok && st.Addr == ssa.Value(al) {
-						stores = append(stores, st)
+						stores = append(stores, assignment{st.Val, st.Block(), p.pos(st.Pos())})
 					}
 				}
 			}
+		case *ssa.Phi:
+			// the variable lives in registers: every incoming edge is an assignment made in (or before) the predecessor
+			for i, e := range x.Edges {
+				pred := x.Block().Preds[i]
+				pos := p.pos(lastTimeCall.Pos())
+				if in, ok := e.(ssa.Instruction); ok {
+					pos = p.pos(instrPos(in))
+				}
+				stores = append(stores, assignment{e, pred, pos})
+			}
+		case *ssa.Call:
+			stores = append(stores, assignment{x, x.Block(), p.pos(x.Pos())})
 		}
 		if len(stores) == 0 {
-			r.Violate("E4-OWNREP", shortFn(sms), "entries-source", p.pos(lastTimeCall.Pos()), "the entries used for $Time$ are not assigned through a local variable: shape not recognised", nil)
+			r.Violate("E4-OWNREP", shortFn(sms), "entries-source", p.pos(lastTimeCall.Pos()), "the entries used for $Time$ have a shape the rule does not recognise", nil)
 		}
 		ownCall := func(v ssa.Value, seen map[ssa.Value]bool) (bool, string) {
 			// v (through phis) is the result of a timeline generator call that received this representation's id
@@ -476,16 +494,16 @@ func checkC16(p *Program, r *Reporter) {
 		}
 		for _, st := range stores {
 			okSrc, why := false, ""
-			if c, isCall := st.Val.(*ssa.Call); isCall {
+			if c, isCall := st.val.(*ssa.Call); isCall {
 				okSrc, why = ownCall(c, map[ssa.Value]bool{})
 			} else {
 				// a value carried from elsewhere (the reference's entries): only legitimate for a track without a
 				// representation of its own — dominated by a failed lookup of this id in asset.Reps — or when it is
 				// this representation's own generator result (first representation = reference)
-				if ok, _ := ownCall(st.Val, map[ssa.Value]bool{}); ok && !isLoopCarried(st.Val) {
+				if ok, _ := ownCall(st.val, map[ssa.Value]bool{}); ok && !isLoopCarried(st.val) {
 					okSrc = true
 				}
-				for _, cd := range condsAt(st) {
+				for _, cd := range factsOf(sms).dominatingConds(st.at) {
 					ex, ok := cd.V.(*ssa.Extract)
 					if !ok || ex.Index != 1 || cd.Pos {
 						continue
@@ -503,7 +521,7 @@ func checkC16(p *Program, r *Reporter) {
 			if okSrc && why == "" {
 				why = "generated for this representation's id"
 			}
-			r.Decide(okSrc, "E4-OWNREP", shortFn(sms), "entries-source", p.pos(st.Pos()), why,
+			r.Decide(okSrc, "E4-OWNREP", shortFn(sms), "entries-source", st.pos, why,
 				"a representation's segment time is computed from entries of another representation (other timescale or segment boundaries): "+why, nil)
 		}
 	}
